@@ -11,7 +11,7 @@
 		g_free_calls = nondet_size_t(); g_alloc_ok = nondet_size_t();                 \
 		__CPROVER_assume(g_free_calls < ((size_t) 1 << 40) && g_alloc_ok < ((size_t) 1 << 40)); \
 		g_now = nondet_u64(); __CPROVER_assume(g_now < ((uint64_t) 1 << 40));         \
-		g_clk_base = g_now; g_lock_ops = 0; g_alloc_calls = 0;                                         \
+		g_clk_base = g_now; g_lock_ops = 0; g_alloc_calls = 0; g_str_calls = 0;                                         \
 		g_held[0] = false; g_held[1] = false; g_held[2] = false; g_held[3] = false;   \
 		g_mx0 = VP_NEW(nni_mtx); g_mx1 = VP_NEW(nni_mtx);                             \
 	} while (0)
@@ -118,30 +118,22 @@ vp_check_tree(nni_stat *r)
 	}
 }
 
-/* One call per value of "which allocation request is refused": constants for
- * the node allocations (they come first: 0 .. nodes-1), symbolic beyond
- * (string copies, or no failure at all). */
-#define ST_SPLIT_FAIL(call)                                              \
-	do {                                                             \
-		size_t f = nondet_size_t();                              \
-		if (f == 0) {                                            \
-			g_fail_at = 0;                                   \
-			if (call == 0) { vp_check_tree(*sp); }           \
-		} else if (f == 1) {                                     \
-			g_fail_at = 1;                                   \
-			if (call == 0) { vp_check_tree(*sp); }           \
-		} else if (f == 2) {                                     \
-			g_fail_at = 2;                                   \
-			if (call == 0) { vp_check_tree(*sp); }           \
-		} else if (f == 3) {                                     \
-			g_fail_at = 3;                                   \
-			if (call == 0) { vp_check_tree(*sp); }           \
-		} else {                                                 \
-			g_fail_at = f;                                   \
-			if (call == 0) { vp_check_tree(*sp); }           \
-		}                                                        \
+/* Which allocation request is refused: a CONSTANT per unit for the node
+ * allocations (nni_zalloc requests 0 .. nodes-1; -DST_FAIL=n), or any one of the
+ * string-copy requests (nni_alloc; symbolic index), or none (ST_FAIL undefined). */
+#ifdef ST_FAIL
+#define ST_SET_FAIL() (g_fail_at = ST_FAIL, g_fail_str_at = (size_t) -1)
+#else
+#define ST_SET_FAIL() (g_fail_at = (size_t) -1, g_fail_str_at = nondet_size_t())
+#endif
+#define ST_SPLIT_FAIL(call)                     \
+	do {                                    \
+		ST_SET_FAIL();                  \
+		if (call == 0) {                \
+			vp_check_tree(g_out);     \
+		}                               \
 	} while (0)
 
-void h_snapshot(void) { nni_stat **sp; VP_HAVOC_GHOSTS(); vp_mk_items(NULL, ST_NC, ST_NG); ST_SPLIT_FAIL(nni_stat_snapshot(sp, g_it0)); VP_CANARY(); }
+void h_snapshot(void) { VP_HAVOC_GHOSTS(); g_out = (nni_stat *) nondet_ptr(); vp_mk_items(NULL, ST_NC, ST_NG); ST_SPLIT_FAIL(nni_stat_snapshot(&g_out, g_it0)); VP_CANARY(); }
 /* the public entry: the root is the file's static stats_root */
-void h_stats_get(void) { nni_stat **sp; VP_HAVOC_GHOSTS(); vp_mk_items(&stats_root, ST_NC, ST_NG); ST_SPLIT_FAIL(nng_stats_get(sp)); VP_CANARY(); }
+void h_stats_get(void) { VP_HAVOC_GHOSTS(); g_out = (nni_stat *) nondet_ptr(); vp_mk_items(&stats_root, ST_NC, ST_NG); ST_SPLIT_FAIL(nng_stats_get(&g_out)); VP_CANARY(); }
